@@ -3,7 +3,7 @@
 //!  (rt <fmt> <doc>)     -> (rt <saveres> <loadres> <saveres2> <loadres2>)   (later parts only while ok)
 //!  (load xBYTES)        -> <loadres>
 //!  <saveres> ::= (saved xBYTES <doc-after-save>) | (invalid-mark xBYTES) | (save-panic xBYTES)
-//!  <loadres> ::= (loaded <doc>) | (err <class>) | (load-panic)
+//!  <loadres> ::= (loaded <doc> table|stream) | (err <class>) | (load-panic)
 //! Verdict (save / rt): the direct evaluation of the property on the implementation for documents in
 //! the property's domain (`savable`, mirrored from coq/Spec/SaveSpec.v), `skip` outside of it.
 use lopdf::xref::XrefType;
@@ -63,7 +63,16 @@ fn load(bytes: &[u8]) -> Result<lopdf::Result<Document>, ()> {
 
 fn loadres_to_sx(r: &Result<lopdf::Result<Document>, ()>) -> Sx {
     match r {
-        Ok(Ok(d)) => Sx::tagged("loaded", vec![doc_to_sx(d)]),
+        Ok(Ok(d)) => Sx::tagged(
+            "loaded",
+            vec![
+                doc_to_sx(d),
+                Sx::id(match d.reference_table.cross_reference_type {
+                    XrefType::CrossReferenceStream => "stream",
+                    XrefType::CrossReferenceTable => "table",
+                }),
+            ],
+        ),
         Ok(Err(e)) => Sx::tagged("err", vec![Sx::id(&err_class(e))]),
         Err(()) => Sx::tagged("load-panic", vec![]),
     }
